@@ -79,6 +79,48 @@ Theorem spec_ok_pins_response : forall i o,
     /\ o_http o = Some p.
 Proof. exact spec_ok_sound. Qed.
 
+(* ---- histories on one server ------------------------------------------------
+   Registrations and setters interleaved, in any order and number, with describe
+   requests over either transport, Server.ProtocolHash() calls and dispatched
+   calls.  What a describe request is answered depends on the surface in force
+   at that moment only — not on earlier describes, not on whether or when the
+   digest was first computed. *)
+Theorem history_describe_is_surface_describe : forall H st ops1 d ops2,
+  is_describe d = true ->
+  nth (length ops1) (hist_run H st (ops1 ++ d :: ops2)) BNone
+  = let s := surface_after (h_surface st) ops1 in
+    desc_obs H s 200 (build_describe H (fst s) (snd s)).
+Proof. exact history_describe. Qed.
+
+(* ... and the surface is what the registrations and setters alone produce *)
+Theorem surface_ignores_observers : forall ops s,
+  surface_after s ops = surface_after s (filter is_mutator ops).
+Proof. exact surface_after_mutators. Qed.
+
+(* ... so the describe served after any history equals the describe of a
+   brand-new server that was given only the registrations and setters of that
+   history (rows, metadata, digest and hashed payload alike). *)
+Theorem history_describe_equals_fresh_server : forall H ops1 d ops2,
+  is_describe d = true ->
+  nth (length ops1) (hist_run H h_init (ops1 ++ d :: ops2)) BNone
+  = nth (length (filter is_mutator ops1))
+        (hist_run H h_init (filter is_mutator ops1 ++ [ODescPipe])) BNone.
+Proof. exact history_describe_fresh. Qed.
+
+(* every describe observation of every history meets the per-response spec
+   (sorted, each once, contract rows, payload = reference framing, digest = that
+   of a fresh server with the same surface) *)
+Theorem history_meets_spec : forall H ops st,
+  hist_ok (h_surface st) ops (hist_run H st ops) = true.
+Proof. exact hist_ok_model. Qed.
+
+(* A describe that stamps a digest memoized at first use and shared with
+   ProtocolHash() violates the property: after describe; register; describe the
+   second response carries the digest of the first surface. *)
+Theorem memoized_hash_refuted :
+  exists ops, hist_ok surface0 ops (hist_run_memo (fun p => p) h_init ops) = false.
+Proof. exact memo_refuted. Qed.
+
 (* Sharpness: the distinct-names premise of describe_perm_invariant cannot be
    dropped — with a name registered twice the last registration wins, so order
    matters (this is the map-overwrite behaviour of the code, not a defect). *)
@@ -95,3 +137,12 @@ Example premises_satisfiable :
   /\ map w_name (describe_rows regs1) = [str "B"; str "a"; str "b"]
   /\ perm_check regs1 regs2 = true.
 Proof. exact premises_example. Qed.
+
+(* the code as it is: the ProtocolHash() ACCESSOR (access-log field) keeps the
+   digest of the surface at its first use; only __describe__ follows the live
+   surface.  Not an obligation of C09, recorded so that the model's cache is
+   seen to be exercised. *)
+Example accessor_keeps_first_use :
+  exists ops b1 b2, hist_run (fun p => p) h_init ops = [BNone; BHash b1; BNone; BHash b2; BNone]
+    /\ b1 = b2 /\ b2 <> payload_of (surface_after surface0 ops).
+Proof. exact accessor_first_use. Qed.
